@@ -83,6 +83,8 @@ deriving DecidableEq, Repr
 
 inductive AddErr where
   | duplicate | equivocation | invalidShred
+  /-- `WrongType` (D15 `fix:`): the data/coding type does not fit the index; ignored like a duplicate -/
+  | wrongType
 deriving DecidableEq, Repr
 
 /-- outcome of `add_shred*`: `Ok(None)`, `Ok(Some(event))`, `Err(_)`, or a Rust panic -/
@@ -277,14 +279,21 @@ def storeStep (env : Nat → Content) (b : BlockData) (s : Shred) : BlockData ×
     if isFirst then (b, .ev .firstShred)
     else reconstruct env b s.slice
 
-/-- `BlockData::add_shred` -/
-def addShred (env : Nat → Content) (b : BlockData) (s : Shred) : BlockData × AddRes :=
+/-- `BlockData::add_shred` of the pinned snapshot (before the D15 `fix:`: no look at the data/coding type); the
+    core of `addShred`, kept for the witness theorems -/
+def addShredCore (env : Nat → Content) (b : BlockData) (s : Shred) : BlockData × AddRes :=
   match cacheStep b s with
   | none => (b, .err .equivocation)
   | some b1 =>
     match lastStep b1 s with
     | none => (b1, .err .equivocation)
     | some b2 => storeStep env b2 s
+
+/-- `BlockData::add_shred` (after the D15 `fix:`): a shred whose data/coding type does not fit its index
+    (`RegularShredder::has_expected_type`, here the attribute `ty`) is dropped before its commitment is cached or
+    anything is stored: `Err(WrongType)`, which no caller treats as the leader's doing -/
+def addShred (env : Nat → Content) (b : BlockData) (s : Shred) : BlockData × AddRes :=
+  if !s.ty then (b, .err .wrongType) else addShredCore env b s
 
 /-- `BlockData::add_own_slice`: returns `(is_first, completed)`; `none` = Rust panic -/
 def addOwnSlice (b : BlockData) (c : Commitment) (sz : Nat) (parent : Option (Nat × Nat)) (txs : Option (List Nat)) :
